@@ -741,6 +741,38 @@ impl<'a> VisitMut for Rewriter<'a> {
                 self.fired.push("R12-wild-closure-param".into());
             }
         }
+        // R12': a tuple pattern as closure parameter (not supported by Verus) becomes a named parameter that the
+        // body destructures first: `|(a, b)| B` => `|vx_p0| { let (a, b) = vx_p0; B }`
+        let mut lets: Vec<Stmt> = vec![];
+        for (i, p) in c.inputs.iter_mut().enumerate() {
+            let nm = format_ident!("vx_p{}", i);
+            match p {
+                Pat::Tuple(_) => {
+                    let pat = p.clone();
+                    lets.push(parse_quote! { let #pat = #nm; });
+                    *p = parse_quote! { #nm };
+                }
+                Pat::Type(t) if matches!(&*t.pat, Pat::Tuple(_)) => {
+                    let pat = (*t.pat).clone();
+                    lets.push(parse_quote! { let #pat = #nm; });
+                    *t.pat = parse_quote! { #nm };
+                }
+                _ => {}
+            }
+        }
+        if !lets.is_empty() {
+            let body = (*c.body).clone();
+            let blk: Block = match body {
+                Expr::Block(b) if b.label.is_none() && b.attrs.is_empty() => {
+                    let mut bb = b.block;
+                    for (k, l) in lets.into_iter().enumerate() { bb.stmts.insert(k, l); }
+                    bb
+                }
+                e => parse_quote! { { #(#lets)* #e } },
+            };
+            *c.body = Expr::Block(ExprBlock { attrs: vec![], label: None, block: blk });
+            self.fired.push("R12'-tuple-closure-param".into());
+        }
         visit_mut::visit_expr_closure_mut(self, c);
     }
 }
@@ -810,6 +842,22 @@ pub fn apply_all(block: &mut Block, item: &Value, fired: &mut Vec<String>, name:
         desugar_seen: HashMap::new(),
     };
     rw.visit_block_mut(block);
+    // R22: `use` declarations inside a function body are dropped (trait imports for method resolution: the
+    // assembled file resolves the same method names against the prelude)
+    struct DropUse(usize);
+    impl VisitMut for DropUse {
+        fn visit_block_mut(&mut self, b: &mut Block) {
+            let n = b.stmts.len();
+            b.stmts.retain(|s| !matches!(s, Stmt::Item(Item::Use(_))));
+            self.0 += n - b.stmts.len();
+            visit_mut::visit_block_mut(self, b);
+        }
+    }
+    let mut du = DropUse(0);
+    du.visit_block_mut(block);
+    if du.0 > 0 {
+        rw.fired.push("R22-local-use-dropped".into());
+    }
 }
 
 // ------------------------------------------------------------------------------------------
